@@ -241,6 +241,10 @@ func c09LegacyCase(t *testing.T, out *zzverif.Out, rng *zzverif.Rng, dir, tag st
 	fmt.Fprintf(&sb, " %d", mok)
 	op := sb.String()
 	out.Case(op, fmt.Sprintf("%s res=%s", strings.Join(reg.log, " "), res))
+	if f, err := os.OpenFile(filepath.Join(zzverif.OutDir(), "tags.txt"), os.O_APPEND|os.O_CREATE|os.O_WRONLY, 0o644); err == nil {
+		fmt.Fprintln(f, tag) // line-aligned with ops.txt: lets the check replay an L1 disagreement
+		f.Close()
+	}
 
 	// L2 on the request log, independent of the model
 	caseLine := tag + " :: " + op
